@@ -20,4 +20,21 @@ C07_ObservedFits ==
 C07_ObservedTail ==
   /\ Len(Rec[i].carried) <= Len(Rec[i].sender)
   /\ \A j \in 1..Len(Rec[i].carried) : Rec[i].carried[j] = Rec[i].sender[j]
+\* large-state sweep records: [mtu, len, members = <<[x, from, dmax, carried, sender, setmax]>>]
+\* the delta fits the budget it was given; for every member it carries exactly the sender's entries
+\* above the start version, in ascending order, as a prefix (only the tail can be missing) and only
+\* the LAST member of a delta may be cut; the start version is 0 or the digest's max version
+StaleOf(m) == SelectSeq(m.sender, LAMBDA v : v > m.from)
+IsPrefixOf(a, b) == Len(a) <= Len(b) /\ \A j \in 1..Len(a) : a[j] = b[j]
+C07_SweepOk ==
+  LET r == Rec[i] IN
+  /\ ~r.panic
+  /\ r.len <= r.mtu
+  /\ \A j \in 1..Len(r.members) :
+       LET m == r.members[j] IN
+       /\ m.from \in {0, m.dmax}
+       /\ IsPrefixOf(m.carried, StaleOf(m))
+       /\ (j < Len(r.members) => m.carried = StaleOf(m))
+       /\ (m.setmax # -1 => (m.carried = <<>> /\ StaleOf(m) = <<>>))
+  /\ \A j, k \in 1..Len(r.members) : j # k => r.members[j].x # r.members[k].x
 ==================================================================================
